@@ -198,6 +198,16 @@ def replay_mix(case):
             bad.append(("mass_fractions(substances=table)", {k: r3.get(k) for k in stoich}, r))
     except Exception as ex:
         bad.append(("mass_fractions(substances=table)", type(ex).__name__, "same fractions as without substances="))
+    # alias keys: the mixture is written over keys that differ from every formula; the caller's table says what they
+    # are - the fractions are those of the table's substances (same expectation from the specification)
+    try:
+        alias = {x["txt"]: "sp%d_" % (i + 1) for i, x in enumerate(ent)}
+        table2 = OrderedDict((alias[x["txt"]], Substance.from_formula(x["txt"])) for x in reversed(ent))
+        r4 = mass_fractions({alias[k]: v for k, v in stoich.items()}, substances=table2)
+        if set(r4) != set(alias.values()) or any(abs(r4[alias[k]] - r[k]) > 1e-14 for k in r):
+            bad.append(("mass_fractions(alias keys, substances=table)", {k: r4.get(alias[k]) for k in stoich}, r))
+    except Exception as ex:
+        bad.append(("mass_fractions(alias keys, substances=table)", type(ex).__name__, "same fractions"))
     if all(x["coef"] == 1 for x in ent):
         try:
             r2 = mass_fractions(set(stoich))
